@@ -59,6 +59,11 @@ func H_C13_Tree(v *sym.V) {
 	for i := 0; i < n; i++ {
 		bs = append(bs, buildBranch(v, g, fmt.Sprintf("b%d", i)))
 	}
+	if n >= 2 && v.Choice("share", 2) == 1 {
+		// the second branch holds the very same leaf object as the first
+		l := bs[0].Leaf
+		bs[1] = &gen.B{Err: errors.Wrap(l, "s"), Text: "s: " + l.Error(), Leaf: l}
+	}
 	multi, text := mkMulti(v, "m", bs)
 	if v.Param("nested", 1) == 1 && v.Choice("nested", 2) == 1 {
 		// nest the multi-cause node as the first branch of an outer one
